@@ -33,7 +33,7 @@ CHECKS = {
              "and everything built on it: factories, convenience methods, add_record / update / flattened, add_attributes, set_time, "
              "add_asserted_type), starting from nothing, every record of every container is in normal form and every namespace manager "
              "satisfies the C03 invariant (induction over the sequence; hstep_normal per operation). Tied to /repo by op-sequence correspondence over all 18 "
-             "kinds x entry paths (new_record, 22 factories, 13 convenience methods) plus a direct normal-form oracle on the real records. Props/C05R: c05_reach_normal - the normal form also holds of every record of every state reachable through add_record, update, add_bundle, flattened() and unified() (Reach), not only through construction and attribute additions. Props/C05X (refused calls): c05_refused_keeps_prefix - when add_attributes(pairs) raises, the record is exactly what the pairs before the refused one produced, the refused pair contributes nothing and nothing after it is looked at; c05_refused_single / c05_refused_on_heap - a refused call with one pair leaves the record, every other record and every container as they were (only the namespace manager may have met a name).",
+             "kinds x entry paths (new_record, 22 factories, 13 convenience methods) plus a direct normal-form oracle on the real records. Props/C05R: c05_reach_normal - the normal form also holds of every record of every state reachable through add_record, update, add_bundle, flattened() and unified() (Reach), not only through construction and attribute additions. Props/C05X (refused calls): c05_refused_keeps_prefix - when add_attributes(pairs) raises, the record is exactly what the pairs before the refused one produced, the refused pair contributes nothing and nothing after it is looked at; c05_refused_single / c05_refused_on_heap - a refused call with one pair leaves the record, every other record and every container as they were (only the namespace manager may have met a name). Props/C05Y: c05_stated_twice_refused - the pair list of one add_attributes call (positional formal arguments followed by the other attributes of a constructor, factory or convenience method) that contains two pairs for one PROV formal attribute with values that are != ends in an error, wherever the two pairs stand, whatever the record held before (loop_keeps_head: a filled PROV slot is not changed by any accepted pair).",
         note=A_COMMON + " float() and dateutil lexical mappings are assumptions (A-LEX), sampled. The membership multi-entity compatibility "
              "path is not claimed (property text). set_time is a setter: it replaces the slot, it does not refuse.",
         technique="Lean 4 invariant preservation proof over attribute-pair lists + op-sequence correspondence + normal-form oracle",
@@ -155,7 +155,7 @@ CHECKS = {
              "record and ANY attribute list of a stored record, every offered (attribute, value) is represented in the result (inserted, or "
              "already present as an equal value under the single-value guard), everything the accumulator held is kept, and nothing else appears "
              "(addOne_general; built on C09's re-creation lemmas); unified() of documents and bundles compared with an independent specification "
-             "(union of attributes, first-occurrence order, ProvException iff formal conflict), idempotence, source unchanged. On the heap (Props/C08D): c08_mergeGroup_content (one fresh cell holding exactly the union of the group under the first member's kind and identifier; no existing cell written), c08_mergeAll_content and c08_unifiedRecords_content (the merge table maps every member of every group to such a record; the result is placeMerged of that table). End to end (Props/C08E): the reachable invariants are kept by the merge pass, so ProvBundle.unified() fills one new container with == copies, in order, of the placed list (c08_unifiedBundle_content; c08_unifiedBundle_reachable for every history of the public mutators without a prov:collection attribute object). ProvDocument.unified() (Props/C08F): c08_unifiedDoc_top - the new document's own records are == copies of the placed list and the loop over the bundles leaves them and every record cell alone (unifiedGo_keeps). Props/C08G: the deriving operations keep the reachable invariants together with 'no membership record' (Good2): add_record (good2_addRecord), ProvBundle.unified (good2_unifiedBundle), add_bundle (good2_addBundle), ProvDocument.unified (good2_unifiedDoc, success or error), flattened (good2_flattened) - so heaps produced by derived documents are again heaps to which the heap theorems apply. Props/C08H: the bundles of ProvDocument.unified() - unifiedGo_chain / c08_unifiedDoc_bundles: on success the new document lists exactly one bundle per source bundle, in order, each under an identifier with the URI of the source bundle's identifier (unifiedBundle_id, attachBundle_ok_id, validName_qn_uri) and each holding what ProvBundle.unified() makes of that source bundle (UnifiedOf: records in order, each same-identifier same-kind group replaced at the place of its first member by one record holding exactly the union), no later round of the loop changing an earlier result (unifiedGo_others, unifiedGo_keeps); concrete instance with a merging bundle. Props/C08I: Reach - the states reachable from nothing by the mutators AND the deriving operations (add_record, update, add_bundle, flattened, unified of bundles and documents, successful or not) in any order - all satisfy the invariants (reach_good2; update: good2_update), so every record of every such state is a stored record (c09_reach_stored) and the unified() theorems hold there without hypotheses on records, managers or indices (c08_unifiedBundle_reach); side condition only on mutator steps (no prov:collection attribute / membership record stored); instance: build, unify, add to the result, flatten it. Idempotence (Props/C18T, C08J, C08K): with two more invariants of every history (each record listed once, one index entry per identifier URI: reachAny_wf2) every group _unified_records() forms is exactly a key class (identifier URI, kind) of the record list (group_is_class, groupsOf_char, groupsOf_of_big); the merge table sends records with one key to one merged record (mergeAll_keyfun); hence the bundle unified() returns holds no two records with one identifier URI and kind (c08_unified_nodupkey), and unifying it again merges nothing: its _unified_records() is the record list of the first result itself, nothing written (c08_unifiedRecords_noop, c08_unified_twice_noop, c08_unified_idempotent_reach for every reachable state; concrete instance). The other branch (Props/C08L): when two records of one group carry, under one PROV attribute, values that no single value stands for - two qualified names with different URIs (conflict_qn) - mergeGroup does not return a record (c08_conflict_no_merge, c08_conflict_refs): the merged record would be in normal form and hold a value for each; instance: two generations under one identifier naming different activities make unified() end in the ProvException branch. And only then (Props/C08O): c08_unified_raises_only_on_conflict - in every reachable state, if unified() of a container ends in an error, the error is the ProvException of the single-value guard and one of the container's groups (same identifier, same kind) holds an earlier and a later statement whose values for one PROV formal attribute are != in Python's sense (two names with different URIs, two date-times at different instants); nothing else can make it fail: re-creating a stored record in the scratch bundle never fails (scratchCopy_ok), stored names and values always convert (addOne_general), and the copy into the new bundle never fails (c09_addRecords_heap). Document level (Props/C08M): the document ProvDocument.unified() returns holds, at top level and in each of its bundles, no two records with one identifier URI and kind (unifiedGo_nodup, c08_unifiedDoc_nodupkey), so unifying it again merges nothing anywhere (c08_unifiedDoc_twice_noop, for every reachable state). Props/C08N: the side condition of the document-level theorems (bundle-table entries refer to existing containers) is an invariant (WB) of every history in which add_bundle is given a container that exists (ReachB, reachB_wb); c08_unifiedDoc_bundles_reach and c08_unifiedDoc_idempotent_reach hold of every document of every such state with no hypothesis left.",
+             "(union of attributes, first-occurrence order, ProvException iff formal conflict), idempotence, source unchanged. On the heap (Props/C08D): c08_mergeGroup_content (one fresh cell holding exactly the union of the group under the first member's kind and identifier; no existing cell written), c08_mergeAll_content and c08_unifiedRecords_content (the merge table maps every member of every group to such a record; the result is placeMerged of that table). End to end (Props/C08E): the reachable invariants are kept by the merge pass, so ProvBundle.unified() fills one new container with == copies, in order, of the placed list (c08_unifiedBundle_content; c08_unifiedBundle_reachable for every history of the public mutators without a prov:collection attribute object). ProvDocument.unified() (Props/C08F): c08_unifiedDoc_top - the new document's own records are == copies of the placed list and the loop over the bundles leaves them and every record cell alone (unifiedGo_keeps). Props/C08G: the deriving operations keep the reachable invariants together with 'no membership record' (Good2): add_record (good2_addRecord), ProvBundle.unified (good2_unifiedBundle), add_bundle (good2_addBundle), ProvDocument.unified (good2_unifiedDoc, success or error), flattened (good2_flattened) - so heaps produced by derived documents are again heaps to which the heap theorems apply. Props/C08H: the bundles of ProvDocument.unified() - unifiedGo_chain / c08_unifiedDoc_bundles: on success the new document lists exactly one bundle per source bundle, in order, each under an identifier with the URI of the source bundle's identifier (unifiedBundle_id, attachBundle_ok_id, validName_qn_uri) and each holding what ProvBundle.unified() makes of that source bundle (UnifiedOf: records in order, each same-identifier same-kind group replaced at the place of its first member by one record holding exactly the union), no later round of the loop changing an earlier result (unifiedGo_others, unifiedGo_keeps); concrete instance with a merging bundle. Props/C08I: Reach - the states reachable from nothing by the mutators AND the deriving operations (add_record, update, add_bundle, flattened, unified of bundles and documents, successful or not) in any order - all satisfy the invariants (reach_good2; update: good2_update), so every record of every such state is a stored record (c09_reach_stored) and the unified() theorems hold there without hypotheses on records, managers or indices (c08_unifiedBundle_reach); side condition only on mutator steps (no prov:collection attribute / membership record stored); instance: build, unify, add to the result, flatten it. Idempotence (Props/C18T, C08J, C08K): with two more invariants of every history (each record listed once, one index entry per identifier URI: reachAny_wf2) every group _unified_records() forms is exactly a key class (identifier URI, kind) of the record list (group_is_class, groupsOf_char, groupsOf_of_big); the merge table sends records with one key to one merged record (mergeAll_keyfun); hence the bundle unified() returns holds no two records with one identifier URI and kind (c08_unified_nodupkey), and unifying it again merges nothing: its _unified_records() is the record list of the first result itself, nothing written (c08_unifiedRecords_noop, c08_unified_twice_noop, c08_unified_idempotent_reach for every reachable state; concrete instance). The other branch (Props/C08L): when two records of one group carry, under one PROV attribute, values that no single value stands for - two qualified names with different URIs (conflict_qn) - mergeGroup does not return a record (c08_conflict_no_merge, c08_conflict_refs): the merged record would be in normal form and hold a value for each; instance: two generations under one identifier naming different activities make unified() end in the ProvException branch. And only then (Props/C08O): c08_unified_raises_only_on_conflict - in every reachable state, if unified() of a container ends in an error, the error is the ProvException of the single-value guard and one of the container's groups (same identifier, same kind) holds an earlier and a later statement whose values for one PROV formal attribute are != in Python's sense (two names with different URIs, two date-times at different instants); nothing else can make it fail: re-creating a stored record in the scratch bundle never fails (scratchCopy_ok), stored names and values always convert (addOne_general), and the copy into the new bundle never fails (c09_addRecords_heap). c08_mergeGroup_error_iff: for a group of stored records the merge raises if and only if an earlier and a later statement give values that are != for one PROV formal attribute. Document level (Props/C08M): the document ProvDocument.unified() returns holds, at top level and in each of its bundles, no two records with one identifier URI and kind (unifiedGo_nodup, c08_unifiedDoc_nodupkey), so unifying it again merges nothing anywhere (c08_unifiedDoc_twice_noop, for every reachable state). Props/C08N: the side condition of the document-level theorems (bundle-table entries refer to existing containers) is an invariant (WB) of every history in which add_bundle is given a container that exists (ReachB, reachB_wb); c08_unifiedDoc_bundles_reach and c08_unifiedDoc_idempotent_reach hold of every document of every such state with no hypothesis left.",
         note=A_COMMON + " Identified membership records are not claimed.",
         technique="Lean 4 list lemmas on the placement pass + op-sequence correspondence + independent unification spec",
         design="§4.C08"),
